@@ -15,18 +15,37 @@ Proof. exact current_lazy_maps_guarded. Qed.
 Print Assumptions C04_current_lazy_maps_guarded.
 
 Theorem C04_current_creates :
-  creates = [ ("EnterEnum", "Types", Always); ("EnterEvent", "Endpoints", IfAbsent);
+  creates = [ ("EnterAlias", "Types", Always); ("EnterEnum", "Types", Always); ("EnterEvent", "Endpoints", IfAbsent);
               ("EnterMethod_def", "Endpoints", IfAbsent); ("EnterName_with_attribs", "Apps", IfAbsent);
               ("EnterSimple_endpoint", "Endpoints", Always); ("EnterSimple_endpoint", "Endpoints", IfAbsent);
-              ("EnterTable", "Types", IfAbsent); ("EnterTable", "Types", IfAbsent) ]%string.
+              ("EnterSubscribe", "Apps", IfAbsent); ("EnterSubscribe", "Endpoints", Always);
+              ("EnterSubscribe", "PublisherEndpoints", IfAbsent);
+              ("EnterTable", "Types", IfAbsent); ("EnterTable", "Types", IfAbsent);
+              ("EnterUnion", "Types", Always); ("ExitAlias", "Types", Always) ]%string.
 Proof. exact current_creates. Qed.
 Print Assumptions C04_current_creates.
+
+(* round 3: lists that grow on re-declaration are appended to; addAttrWithPrecedence keeps the first non-empty
+   value; a field declared again is merged *)
+Theorem C04_current_appends :
+  appends = [ ("EnterSubscribe", "ep.Stmt"); ("EnterTypes", "type1.Constraint"); ("ExitMethod_def", "qparams");
+              ("ExitMixin", "s.currentApp().Mixin2"); ("ExitParams", "ep.Param"); ("ExitParams", "params");
+              ("ExitUnion", "oneof.Type");
+              ("addToCurrentScope", "scope.Stmt"); ("addToCurrentScope", "scope.Stmt");
+              ("addToCurrentScope", "scope.Stmt"); ("addToCurrentScope", "scope.Stmt");
+              ("addToCurrentScope", "scope.Stmt"); ("addToCurrentScope", "scope.Stmt") ]%string.
+Proof. exact current_appends. Qed.
+Print Assumptions C04_current_appends.
+
+Theorem C04_current_attr_rules : anno_rule = FirstNonEmptyWins /\ field_redecl = FieldMerged.
+Proof. exact (conj current_anno_rule current_field_redecl). Qed.
+Print Assumptions C04_current_attr_rules.
 
 (* ---- the property, for the rule the current source follows ----
    every set of files (any import graph reaching all of them, any order of import statements, any assignment of
    blocks to files, any order of blocks) whose declarations are those of `joined` - permuted, with the fields of a
    type split over several shares or permuted, with bare re-opening headers added - compiles to the model of
-   `joined`: modules equal, primary keys equal as sets *)
+   `joined`: modules equal, primary-key lists and mixin lists equal up to their order *)
 Theorem C04_merge_partition_invariant : forall files root joined,
   NoDup (map fst files) -> all_reached files root = true ->
   wf (bcontent joined) -> refines (bcontent joined) (bcontent (all_blocks files)) ->
@@ -73,8 +92,8 @@ Theorem C04_merge_fields_pk_refuted :
   exists files root joined,
     NoDup (map fst files) /\ all_reached files root = true /\
     wf (bcontent joined) /\ refines (bcontent joined) (bcontent (all_blocks files)) /\
-    snd (denote_files PkReplace files root) !! (wit_app, 6%positive) = Some [8%positive] /\
-    snd (denote_blocks PkReplace joined) !! (wit_app, 6%positive) = Some [7%positive; 8%positive] /\
+    snd (denote_files PkReplace files root) !! (wit_app, 16%positive) = Some [8%positive] /\
+    snd (denote_blocks PkReplace joined) !! (wit_app, 16%positive) = Some [7%positive; 8%positive] /\
     ~ Req (denote_files PkReplace files root) (denote_blocks PkReplace joined).
 Proof. exact merge_fields_pk_refuted. Qed.
 Print Assumptions C04_merge_fields_pk_refuted.
@@ -100,3 +119,39 @@ Theorem C04_order_hypothesis_met :
   orefines (bcontent wit_joined) (bcontent (blocks_in_order wit_files (flatten_order wit_files 20%positive))).
 Proof. exact wit_ordered. Qed.
 Print Assumptions C04_order_hypothesis_met.
+
+(* ---- round 3: annotations, aliases, unions, mixins, subscriptions, parameters, nested statements ----
+   non-vacuity of the headline theorem for the new member kinds: an application annotation, a type whose fields AND
+   annotations are split over two files, an alias, two mixins in two files, a subscription *)
+Theorem C04_hypotheses_met_round3 :
+  NoDup (map fst w2_files) /\ all_reached w2_files 20%positive = true /\
+  wf (bcontent w2_joined) /\ refines (bcontent w2_joined) (bcontent (all_blocks w2_files)).
+Proof. exact w2_hyps. Qed.
+Print Assumptions C04_hypotheses_met_round3.
+
+(* the mixin list follows the block order: [36;37] joined, [37;36] in that layout - equal up to order *)
+Theorem C04_round3_layout_agrees :
+  Req (denote_files PkUnion w2_files 20%positive) (denote_blocks PkUnion w2_joined)
+  /\ snd (denote_blocks PkUnion w2_joined) !! (w2_app, mixin_key) = Some [36%positive; 37%positive]
+  /\ snd (denote_files PkUnion w2_files 20%positive) !! (w2_app, mixin_key) = Some [37%positive; 36%positive].
+Proof. exact w2_agrees. Qed.
+Print Assumptions C04_round3_layout_agrees.
+
+(* the side conditions of `wf` are needed: an annotation name set in two blocks, an alias declared in two blocks, a
+   field declared in two blocks, an array attribute set by a header and by an annotation, two subscribers of one
+   event - in each case exchanging the two blocks changes the compiled module (what the code does, and the model) *)
+Theorem C04_merge_redeclared_refuted :
+  fst (denote_blocks PkUnion (r_anno1 ++ r_anno2)) <> fst (denote_blocks PkUnion (r_anno2 ++ r_anno1)) /\
+  fst (denote_blocks PkUnion (r_alias1 ++ r_alias2)) <> fst (denote_blocks PkUnion (r_alias2 ++ r_alias1)) /\
+  fst (denote_blocks PkUnion (r_field1 ++ r_field2)) <> fst (denote_blocks PkUnion (r_field2 ++ r_field1)) /\
+  fst (denote_blocks PkUnion (r_arr1 ++ r_arr2)) <> fst (denote_blocks PkUnion (r_arr2 ++ r_arr1)) /\
+  fst (denote_blocks PkUnion (r_sub1 ++ r_sub2)) <> fst (denote_blocks PkUnion (r_sub2 ++ r_sub1)).
+Proof. exact merge_redeclared_modules_differ. Qed.
+Print Assumptions C04_merge_redeclared_refuted.
+
+(* ... while an order-preserving layout (C04_merge_pk_order_preserved asks no well-formedness) of a specification
+   that sets a name twice is compiled exactly like the joined form *)
+Theorem C04_order_hypothesis_met_redeclared :
+  orefines (bcontent wo_joined) (bcontent (blocks_in_order wo_files (flatten_order wo_files 20%positive))).
+Proof. exact wo_ordered. Qed.
+Print Assumptions C04_order_hypothesis_met_redeclared.
